@@ -86,4 +86,182 @@ theorem scan_plain (text suf : List Char) (i : Nat) (h : ∀ c ∈ text, special
     rw [ih _ (fun d hd => h d (by simp [hd]))]
     simp [utf8Len]; congr 1; omega
 
+/-! ### escapes and `{{` / `}}` in f-string text -/
+
+theorem unescape_plain (c : Char) (rest : List Char) (h1 : c ≠ '\\') (h2 : c ≠ '"') (h3 : c ≠ '\r') :
+    unescape (c :: rest) = (unescape rest).map (c :: ·) := by
+  rw [unescape.eq_def]
+  split <;> simp_all
+
+/-- an escape sequence denotes `v` in every context -/
+def EscOK (spelling : List Char) (v : Char) : Prop :=
+  ∀ rest, unescape (spelling ++ rest) = (unescape rest).map (v :: ·)
+
+/-- a character the brace pass copies -/
+def copied (c : Char) : Bool := !(c == '\\' || c == '{' || c == '}')
+
+def Item.ok : Item → Prop
+  | .plain c => copied c = true ∧ c ≠ '"' ∧ c ≠ '\r'
+  | .esc s v => EscOK s v ∧ ∃ k tail, s = '\\' :: k :: tail ∧ k ≠ 'u' ∧ ∀ d ∈ tail, copied d = true
+  | .lbrace => True
+  | .rbrace => True
+
+def Item.isBrace : Item → Bool
+  | .lbrace => true
+  | .rbrace => true
+  | _ => false
+
+theorem go_nil (acc : List Char) : partTextGo false [] acc = unescape acc.reverse := by
+  rw [partTextGo.eq_def]
+
+theorem go_plain (c : Char) (S acc : List Char) (h : copied c = true) :
+    partTextGo false (c :: S) acc = partTextGo false S (c :: acc) := by
+  simp only [copied, Bool.not_eq_true', Bool.or_eq_false_iff] at h
+  obtain ⟨⟨h1, h2⟩, h3⟩ := h
+  cases S with
+  | nil => rw [go_nil, partTextGo.eq_def]
+  | cons d S =>
+    cases S with
+    | nil => rw [partTextGo.eq_def]; simp [h1, h2, h3]
+    | cons e S => rw [partTextGo.eq_def]; simp [h1, h2, h3]
+
+theorem go_plains (t S acc : List Char) (h : ∀ d ∈ t, copied d = true) :
+    partTextGo false (t ++ S) acc = partTextGo false S (t.reverse ++ acc) := by
+  induction t generalizing acc with
+  | nil => rfl
+  | cons c t ih =>
+    rw [List.cons_append, go_plain c _ _ (h c (by simp)), ih _ (fun d hd => h d (by simp [hd]))]
+    simp
+
+theorem go_esc2 (k : Char) (S acc : List Char) (hk : k ≠ 'u') :
+    partTextGo false ('\\' :: k :: S) acc = partTextGo false S (k :: '\\' :: acc) := by
+  cases S with
+  | nil => rw [partTextGo.eq_def]; simp
+  | cons e S => rw [partTextGo.eq_def]; simp [hk]
+
+def combine (c : Char) : Option (List Char) → Option (List Char) → Option (List Char)
+  | some a, some b => some (a ++ c :: b)
+  | _, _ => none
+
+theorem go_brace (c : Char) (S acc : List Char) (hc : c = '{' ∨ c = '}') :
+    partTextGo false (c :: c :: S) acc = combine c (unescape acc.reverse) (partTextGo false S []) := by
+  have h1 : (c == '\\') = false := by rcases hc with rfl | rfl <;> decide
+  have h2 : (c == '{' || c == '}') = true := by rcases hc with rfl | rfl <;> decide
+  cases S with
+  | nil =>
+    rw [partTextGo.eq_def]; simp only [h1, h2, Bool.false_eq_true, if_false, beq_self_eq_true, Bool.and_self, if_true]
+    cases unescape acc.reverse <;> cases partTextGo false [] [] <;> rfl
+  | cons e S =>
+    rw [partTextGo.eq_def]; simp only [h1, h2, Bool.false_eq_true, if_false, beq_self_eq_true, Bool.and_self, if_true]
+    cases unescape acc.reverse <;> cases partTextGo false (e :: S) [] <;> rfl
+
+/-- brace-free, valid items: `unescape` is compositional on them -/
+theorem unescape_items (pre : List Item) (rest : List Char)
+    (hok : ∀ it ∈ pre, it.ok) (hnb : ∀ it ∈ pre, it.isBrace = false) :
+    unescape (spell pre ++ rest) = (unescape rest).map (meaning pre ++ ·) := by
+  induction pre with
+  | nil => simp [spell, meaning]
+  | cons it pre ih =>
+    have ih' := ih (fun j hj => hok j (by simp [hj])) (fun j hj => hnb j (by simp [hj]))
+    have hit := hok it (by simp)
+    have hb := hnb it (by simp)
+    cases it with
+    | plain c =>
+      obtain ⟨h1, h2, h3⟩ := hit
+      have hc : c ≠ '\\' := by
+        intro h; subst h; simp [copied] at h1
+      simp only [spell, List.map_cons, List.flatten_cons, Item.spelling, List.cons_append, List.nil_append,
+        meaning, Item.value] at ih' ⊢
+      rw [unescape_plain c _ hc h2 h3, ih']
+      cases unescape rest <;> simp
+    | esc sp v =>
+      obtain ⟨h1, _⟩ := hit
+      simp only [spell, List.map_cons, List.flatten_cons, Item.spelling, List.append_assoc,
+        meaning, Item.value] at ih' ⊢
+      rw [h1, ih']
+      cases unescape rest <;> simp
+    | lbrace => simp [Item.isBrace] at hb
+    | rbrace => simp [Item.isBrace] at hb
+
+theorem spell_snoc (pre : List Item) (it : Item) : spell (pre ++ [it]) = spell pre ++ it.spelling := by
+  simp [spell]
+
+theorem meaning_snoc (pre : List Item) (it : Item) : meaning (pre ++ [it]) = meaning pre ++ [it.value] := by
+  simp [meaning]
+
+theorem unescape_pre (pre : List Item) (hok : ∀ it ∈ pre, it.ok) (hnb : ∀ it ∈ pre, it.isBrace = false) :
+    unescape (spell pre) = some (meaning pre) := by
+  have := unescape_items pre [] hok hnb
+  have hnil : unescape [] = some [] := by rw [unescape.eq_def]
+  rw [hnil] at this
+  simpa using this
+
+theorem partText_items (items pre : List Item) (hok : ∀ it ∈ items, it.ok)
+    (hokp : ∀ it ∈ pre, it.ok) (hnb : ∀ it ∈ pre, it.isBrace = false) :
+    partTextGo false (spell items) (spell pre).reverse = some (meaning pre ++ meaning items) := by
+  induction items generalizing pre with
+  | nil =>
+    simp only [spell, List.map_nil, List.flatten_nil, go_nil, List.reverse_reverse, meaning, List.append_nil]
+    exact unescape_pre pre hokp hnb
+  | cons it items ih =>
+    have hit := hok it (by simp)
+    have hok' : ∀ j ∈ items, j.ok := fun j hj => hok j (by simp [hj])
+    have step : ∀ (hb : it.isBrace = false),
+        partTextGo false (spell items) (spell (pre ++ [it])).reverse =
+          some (meaning pre ++ meaning (it :: items)) := by
+      intro hb
+      have := ih (pre ++ [it]) hok'
+        (fun j hj => by
+          simp only [List.mem_append, List.mem_singleton] at hj
+          rcases hj with h | h
+          · exact hokp j h
+          · subst h; exact hit)
+        (fun j hj => by
+          simp only [List.mem_append, List.mem_singleton] at hj
+          rcases hj with h | h
+          · exact hnb j h
+          · subst h; exact hb)
+      rw [this, meaning_snoc]
+      simp [meaning]
+    cases it with
+    | plain c =>
+      have := step rfl
+      simp only [spell_snoc, Item.spelling, List.reverse_append, List.reverse_cons, List.reverse_nil,
+        List.nil_append, List.singleton_append] at this
+      simp only [spell, List.map_cons, List.flatten_cons, Item.spelling, List.cons_append, List.nil_append]
+      rw [go_plain c _ _ hit.1]
+      exact this
+    | esc sp v =>
+      have := step rfl
+      obtain ⟨_, k, tail, hs, hk, ht⟩ := hit
+      subst hs
+      simp only [spell_snoc, Item.spelling, List.reverse_append, List.reverse_cons] at this
+      simp only [spell, List.map_cons, List.flatten_cons, Item.spelling, List.cons_append]
+      rw [go_esc2 k _ _ hk, go_plains tail _ _ ht]
+      simpa [spell] using this
+    | lbrace =>
+      simp only [spell, List.map_cons, List.flatten_cons, Item.spelling, List.cons_append, List.nil_append]
+      rw [go_brace '{' _ _ (Or.inl rfl), List.reverse_reverse]
+      have h1 := unescape_pre pre hokp hnb
+      have h2 := ih [] hok' (by simp) (by simp)
+      simp only [spell, List.map_nil, List.flatten_nil, List.reverse_nil, meaning, List.nil_append] at h1 h2
+      rw [h1, h2]
+      simp [combine, meaning, Item.value]
+    | rbrace =>
+      simp only [spell, List.map_cons, List.flatten_cons, Item.spelling, List.cons_append, List.nil_append]
+      rw [go_brace '}' _ _ (Or.inr rfl), List.reverse_reverse]
+      have h1 := unescape_pre pre hokp hnb
+      have h2 := ih [] hok' (by simp) (by simp)
+      simp only [spell, List.map_nil, List.flatten_nil, List.reverse_nil, meaning, List.nil_append] at h1 h2
+      rw [h1, h2]
+      simp [combine, meaning, Item.value]
+
+theorem copied_of_hex (h : Char) (a : Nat) (hh : hexVal h = some a) : copied h = true := by
+  cases hc : copied h with
+  | true => rfl
+  | false =>
+    exfalso
+    simp only [copied, Bool.not_eq_false', Bool.or_eq_true, beq_iff_eq] at hc
+    rcases hc with (rfl | rfl) | rfl <;> simp [hexVal] at hh
+
 end RotoV.FString
